@@ -265,7 +265,7 @@ def p_c04(ctx):
 
 @pipeline("C18")
 def p_c18(ctx):
-    q = [["shift", "-worlds", "kinds,tf", "-stride", "7", "-maxins", "4"]]
+    q = [["shift", "-worlds", "kinds,tf", "-stride", "5", "-maxins", "8"]]
     t = [["shift", "-worlds", "kinds,tf,hostile", "-stride", "1", "-maxins", "0"]]
     bad, info, files = driver_trace(ctx, q if ctx.quick else t, "queries")
     viols, samples, nshift = [], [], 0
@@ -509,13 +509,13 @@ def p_c05(ctx):
     rlog = os.path.join(ctx.work, "racelog")
     pre = os.path.join(ctx.work, "rc")
     p = ctx.run_hx(["race", "-out", pre, "-seed", str(ctx.seed), "-goroutines", "16" if ctx.quick else "48", "-rounds", "2" if ctx.quick else "6",
-                    "-stride", "11" if ctx.quick else "3"], binary=hxr, env={"GORACE": "log_path=%s halt_on_error=0" % rlog}, timeout=7200)
+                    "-stride", "11" if ctx.quick else "3"], binary=hxr, env={"GORACE": "log_path=%s halt_on_error=0" % rlog}, timeout=7200, ok_codes=(0, 66))
     n1 = json.loads(p.stdout.strip().splitlines()[-1])["events"]
     # (3) TLC-generated schedules forced with the scheduler gates
     scases, ns = tlc_cases(ctx, "Sched.tla", "Sched_quick.cfg" if ctx.quick else "Sched_full.cfg", "sched", workers=2)
     pre2 = os.path.join(ctx.work, "sc")
     p = ctx.run_hx(["sched", "-cases", scases, "-out", pre2, "-seed", str(ctx.seed), "-world", "tf", "-pairs", "3" if ctx.quick else "6"], binary=hxr,
-                   env={"GORACE": "log_path=%s halt_on_error=0" % rlog}, timeout=7200)
+                   env={"GORACE": "log_path=%s halt_on_error=0" % rlog}, timeout=7200, ok_codes=(0, 66))
     info2 = json.loads(p.stdout.strip().splitlines()[-1])
     races = parse_race_logs(rlog)
     rf = os.path.join(ctx.work, "races.000.ndjson")
